@@ -131,7 +131,8 @@ Inductive deferr :=
 | EInvalidStateName            (* InvalidStateName: name collides with a StateMachine attribute *)
 | ESig (e : sigerr)            (* ValueError from the signature loop                             *)
 | EAlias                       (* InvalidStateName from __set_name__: bound under another name   *)
-| ENotStateMachine.            (* TypeError from __set_name__: owner is not a StateMachine       *)
+| ENotStateMachine             (* TypeError from __set_name__: owner is not a StateMachine       *)
+| EUnbound.                    (* NameError / KeyError: a class body reads a name that is not bound *)
 
 (* _State.__init__ as called by the three decorators.  [reserved] is the list
    of names n with  hasattr(StateMachine, n) or n in StateMachine.__annotations__. *)
@@ -173,34 +174,62 @@ Definition set_name (owner_is_sm : bool) (attr_name state_name : string) : resul
 (* ------------------------------------------------------------------ *)
 (* A class statement                                                    *)
 
-(* what a class body binds, in source order *)
-Inductive smember := SState (d : decl) | SOther.
+(* what a class body binds, in source order:
+     SState d     a decorated function  (@state def k(..) / k = state(f))
+     SOther       anything that is not a state (plain method, constant)
+     SLocal k'    k = k'                 the object the class namespace holds under k' at
+                                         that line (a second binding of the same object)
+     SRef c k'    k = C_c.__dict__[k']   the object an earlier class of the module holds
+                                         under k' (C_c.k' for a name C_c binds itself)     *)
+Inductive smember := SState (d : decl) | SOther | SLocal (k : string) | SRef (c : nat) (k : string).
 (* what the class __dict__ holds *)
 Inductive member := MState (s : sdata) | MOther.
 
-Definition eval_member (reserved : list string) (m : smember) : result member deferr :=
+(* C_c.__dict__[k] for the classes defined so far *)
+Definition class_attr (dicts : list (dict member)) (c : nat) (k : string) : option member :=
+  match nth_error dicts c with
+  | Some d => dict_get k d
+  | None => None
+  end.
+
+(* the value of the right-hand side of a binding; [ns] is the class namespace
+   when the line is reached, [dicts] the __dict__ of the earlier classes.  A
+   reference yields the very object that is already bound elsewhere: the same
+   _State with the same name. *)
+Definition eval_member (reserved : list string) (dicts : list (dict member)) (ns : dict member)
+  (m : smember) : result member deferr :=
   match m with
   | SOther => Ok MOther
   | SState d => match construct reserved d with
                 | Err e => Err e
                 | Ok s => Ok (MState s)
                 end
+  | SLocal k => match dict_get k ns with
+                | Some v => Ok v
+                | None => Err EUnbound
+                end
+  | SRef c k => match class_attr dicts c k with
+                | Some v => Ok v
+                | None => Err EUnbound
+                end
   end.
 
 (* executing the body: every decorator runs when its line is reached; the
    namespace is a dict (a rebinding keeps the position, takes the value) *)
-Fixpoint eval_body (reserved : list string) (b : list (string * smember)) (ns : dict member)
-  : result (dict member) deferr :=
+Fixpoint eval_body (reserved : list string) (dicts : list (dict member))
+  (b : list (string * smember)) (ns : dict member) : result (dict member) deferr :=
   match b with
   | [] => Ok ns
-  | (k, m) :: r => match eval_member reserved m with
+  | (k, m) :: r => match eval_member reserved dicts ns m with
                    | Err e => Err e
-                   | Ok v => eval_body reserved r (dict_set k v ns)
+                   | Ok v => eval_body reserved dicts r (dict_set k v ns)
                    end
   end.
 
 (* type.__new__ then calls __set_name__ on every value of the namespace, in
-   namespace order *)
+   namespace order -- on EVERY binding of a state object, however often and
+   wherever the object has been bound before (the object keeps no memory of
+   earlier bindings) *)
 Fixpoint set_names (owner_is_sm : bool) (ns : dict member) : result unit deferr :=
   match ns with
   | [] => Ok tt
@@ -211,9 +240,9 @@ Fixpoint set_names (owner_is_sm : bool) (ns : dict member) : result unit deferr 
                           end
   end.
 
-Definition define_class (reserved : list string) (owner_is_sm : bool)
+Definition define_class (reserved : list string) (dicts : list (dict member)) (owner_is_sm : bool)
   (b : list (string * smember)) : result (dict member) deferr :=
-  match eval_body reserved b [] with
+  match eval_body reserved dicts b [] with
   | Err e => Err e
   | Ok ns => match set_names owner_is_sm ns with
              | Err e => Err e
@@ -247,7 +276,7 @@ Fixpoint define_from (reserved : list string) (idx : nat) (cs : list classdef)
   | [] => Ok dicts
   | c :: r =>
     let sm := is_sm known (c_bases c) in
-    match define_class reserved sm (c_body c) with
+    match define_class reserved dicts sm (c_body c) with
     | Err e => Err (idx, e)
     | Ok ns => define_from reserved (S idx) r (known ++ [sm])
                  (dicts ++ [ns ++ map (fun k => (k, MOther)) (c_extra c)])
